@@ -21,7 +21,9 @@ EXTENDS Naturals, Sequences, FiniteSets
 
 CONSTANTS NT,        \* threads
           NE,        \* elements the iterator yields
-          Chunks     \* chunk sizes a thread may have been given
+          Chunks,    \* chunk sizes a thread may have been given
+          EagerSkip  \* FALSE: the real kernels. TRUE: a thread may also call skip_to_end as soon as
+                     \* has_more() reports No (a tempting "optimisation": has_more counts RESERVATIONS)
 
 VARIABLES ordered,   \* which variant (chosen initially)
           counter,   \* tickets handed out
@@ -95,7 +97,16 @@ Skip(t) ==
   /\ th' = [th EXCEPT ![t].pc = "end"]
   /\ UNCHANGED <<ordered, counter, itpos, dry, taken>>
 
-Next == \E t \in Threads : Ticket(t) \/ Acquire(t) \/ Fill(t) \/ Release(t) \/ Complete(t) \/ Skip(t)
+\* has_more() == No for a source of known length: everything is reserved (counter >= NE) or COMPLETED
+HasMoreNo == counter >= NE \/ gate = DoneG
+\* NOT in the library: skip_to_end because "nothing is left" (only with EagerSkip)
+SkipBecauseNoMore(t) ==
+  /\ EagerSkip /\ th[t].pc = "idle" /\ HasMoreNo /\ gate # DoneG
+  /\ gate' = DoneG
+  /\ th' = [th EXCEPT ![t].pc = "end"]
+  /\ UNCHANGED <<ordered, counter, itpos, dry, taken, skipped>>
+
+Next == \E t \in Threads : Ticket(t) \/ Acquire(t) \/ Fill(t) \/ Release(t) \/ Complete(t) \/ Skip(t) \/ SkipBecauseNoMore(t)
 Spec == Init /\ [][Next]_vars /\ \A t \in Threads : WF_vars(Ticket(t) \/ Acquire(t) \/ Fill(t) \/ Release(t) \/ Complete(t))
 
 Inside == {t \in Threads : th[t].pc \in {"fill", "release", "complete"}}
@@ -113,6 +124,9 @@ InOrder ==
 \* C10: once COMPLETED is visible and the critical section is empty, the user's iterator is
 \* never advanced again
 NothingAfterComplete == [][gate = DoneG /\ Inside = {} => itpos' = itpos]_vars
+\* unless a finder published early exit, every element has been handed out when all threads rest
+\* (fails with EagerSkip: a thread that had reserved the tail is turned away before it pulled)
+NothingLost == ((\A t \in Threads : th[t].pc = "end") /\ ~skipped) => itpos = NE
 \* every thread comes to rest: the source ran dry or early exit was published
 Quiesces == <>(\A t \in Threads : th[t].pc = "end")
 =============================================================================
